@@ -158,7 +158,7 @@ def coutcome(r, key="q"):
 
 def to_coq(c, r):
     if "exc" in r and "res" not in r:     # the runner itself failed: never acceptable
-        return f"({{| k_test := false; k_pipe := false |}}, false, false, ([] : list (rule dr cr)), (Crash 96 : outcome (list str)), ([] : list (nat * N)), false, ([] : list (outcome (list str))))"
+        return f"({{| k_test := false; k_pipe := false |}}, false, false, ([] : list (rule dr cr)), (Crash 96 : outcome (list str)), ([] : list (nat * N)), false, ([] : list (outcome (list str))), ([] : list nat))"
     pipe = bool(c["pipe"])
     rules = []
     for i, ru in enumerate(c["rules"]):
@@ -182,8 +182,9 @@ def to_coq(c, r):
     ierrs = clist(f"({cnat(p if p >= 0 else 999)}, {SIGMA.get(cl, 99)})" for p, cl in r["errors"])
     order_ok = cbool(r["order"] == list(range(len(c["rules"]))))
     al = clist(coutcome(a) for a in r["alone"])
+    ncs = clist(cnat(len(ru['conds']) if ru['k'] == 'd' and (ru.get('form', 'list') == 'list') else 1) for ru in c['rules'])
     K = f"{{| k_test := {cbool(c['fmt'] == 'test')}; k_pipe := {cbool(pipe)} |}}"
-    return f"({K}, {cbool(c.get('fcs', False))}, {cbool(c['collect'])}, ({clist(rules)} : list (rule dr cr)), ({ires} : outcome (list str)), ({ierrs} : list (nat * N)), {order_ok}, ({al} : list (outcome (list str))))"
+    return f"({K}, {cbool(c.get('fcs', False))}, {cbool(c['collect'])}, ({clist(rules)} : list (rule dr cr)), ({ires} : outcome (list str)), ({ierrs} : list (nat * N)), {order_ok}, ({al} : list (outcome (list str))), ({ncs} : list nat))"
 
 
 def mutate(c, rng):
